@@ -1614,6 +1614,18 @@ def check_C10(res):
         for _ in range(per):
             k = rng.choice(['byte', 'field16', 'field32', 'trunc', 'dup', 'del', 'header', 'header', 'header'])
             files.append(mutate_file(rng, f, k)); kinds.append(k)
+    # declared-size sweep (suggested by the progress argument of the model): every creatable class with every small
+    # declared object size, followed by zeros / by a valid object
+    import struct
+    tail_obj = next((o['expected'][0]['bytes'] for o in out if o['file'] is not None and o['expected'] and o['expected'][0]['halt'] == 'none'), b'')
+    for code, cn in sorted(summary.get('factory', {}).items(), key=lambda x: int(x[0]) if x[0].isdigit() else -1):
+        if not code.isdigit() or cn == 'LogContainer':
+            continue
+        sizes = list(range(16, 40)) + [48, 64, 100, 200] if res.tier == 'thorough' else [16, 17, 19, 20, 21, 24, 31, 32, 33, 40, 48]
+        for osz in sizes:
+            hv = 2 if cn in ('CanFdMessage64x',) else 1
+            stream = struct.pack('<IHHII', 0x4A424F4C, 32, hv, osz, int(code)) + bytes(rng.choice([40, 120, 400])) + tail_obj
+            files.append(wrap_stream(stream, rng.choice([64, 131072]))); kinds.append('size-sweep:%s:%d' % (cn, osz))
     os.environ['VERIF_CAP'] = str(256 * 1024 * 1024)
     r, mr = fc.read_files(res, files, fexe)
     if r is None or mr is None:
@@ -1634,7 +1646,7 @@ def check_C10(res):
                 res.violation('model-vs-implementation', 'readFile of a mutated file: model %s, implementation %s' % (ma[:40], a[:40]), {'file': f.hex()[:8000], 'mutation': k, 'model': ma[:600], 'impl': a[:600]})
         if oc not in ('ended', 'openexc'):
             md = fc.split_read(ma)[0].get('outcome')
-            sig = classify_hostile(f, a, ma)
+            sig = classify_hostile(f, a, ma, k)
             if sig not in fails or len(f) < len(fails[sig][0]):
                 fails[sig] = (f, k, a[:120], ma[:120])
     res.corr['disagreements'] = dis
@@ -1648,11 +1660,13 @@ def check_C10(res):
     finish_codec(res)
 
 
-def classify_hostile(f, a, ma):
+def classify_hostile(f, a, ma, kind=''):
     """failure signature of a hostile-input failure: outcome + the first structural anomaly of the file"""
     import struct
     oc = 'hang' if 'outcome=hang' in a else ('crash' if 'crash' in a else a.split()[1] if len(a.split()) > 1 else 'other')
     why = 'other'
+    if kind.startswith('size-sweep'):
+        return oc + ':declared-size-smaller-than-default-layout:' + kind.split(':')[1]
     # walk the containers
     pos = 144
     stream = b''
